@@ -23,6 +23,27 @@ def cargo_env():
     return env
 
 
+class repo_lock:
+    """Advisory lock on the state of /repo's working tree: builds take it shared; tools that patch /repo temporarily (seedcheck,
+    reseed, trymut) take it exclusively, so that a check running in the background never builds a deliberately broken tree."""
+    PATH = "/dev/shm/mscript-verif-repo.lock"
+
+    def __init__(self, exclusive):
+        self.exclusive = exclusive
+
+    def __enter__(self):
+        import fcntl
+        self.f = open(self.PATH, "a+")
+        if os.environ.get("MSCRIPT_VERIF_LOCK_HELD") != "1":      # a tool that holds the exclusive lock runs the checks itself
+            fcntl.flock(self.f, fcntl.LOCK_EX if self.exclusive else fcntl.LOCK_SH)
+        return self
+
+    def __exit__(self, *a):
+        import fcntl
+        fcntl.flock(self.f, fcntl.LOCK_UN)
+        self.f.close()
+
+
 def machinery_exit(msg, code=2):
     print(f"MACHINERY-ERROR: {msg}", flush=True)
     sys.exit(code)
@@ -33,8 +54,9 @@ def build(probe=False, quiet=True):
     t0 = time.time()
     os.makedirs(BUILD_ROOT, exist_ok=True)
     cmd = ["cargo", "build", "--offline", "--bin", "mscript"]
-    p = subprocess.run(cmd, cwd=REPO, env=cargo_env(), stdout=subprocess.PIPE,
-                       stderr=subprocess.STDOUT, text=True)
+    with repo_lock(exclusive=False):
+        p = subprocess.run(cmd, cwd=REPO, env=cargo_env(), stdout=subprocess.PIPE,
+                           stderr=subprocess.STDOUT, text=True)
     if p.returncode != 0 or not os.path.exists(BIN):
         sys.stdout.write(p.stdout[-6000:])
         machinery_exit("BUILD-FAILED (cargo build of /repo with hooks on)")
